@@ -212,7 +212,7 @@ func (s *sys) Do(op string) (string, *eng.Violation) {
 		c, mode, name := fl[1], fl[2], pinName(fl[3])
 		switch mode {
 		case "rec":
-			apply = func() { m.pins[c] = pinRec{"R", name} }
+			apply = func() { m.pins[c] = pinRec{Mode: "R", Name: name} }
 			if fl[0] == "Pin" {
 				blockRoot := c
 				if c == "A1" {
@@ -226,7 +226,7 @@ func (s *sys) Do(op string) (string, *eng.Violation) {
 			if m.rec(c) {
 				allowed = false // recursive supersedes direct
 			}
-			apply = func() { m.pins[c] = pinRec{"D", name} }
+			apply = func() { m.pins[c] = pinRec{Mode: "D", Name: name} }
 		default:
 			allowed = false
 		}
@@ -257,7 +257,7 @@ func (s *sys) Do(op string) (string, *eng.Violation) {
 		default:
 			name := m.pins[from].Name
 			apply = func() {
-				m.pins[to] = pinRec{"R", name} // recursive supersedes a direct pin of `to`
+				m.pins[to] = pinRec{Mode: "R", Name: name, AnyName: true} // recursive supersedes a direct pin of `to`
 				if unpin {
 					delete(m.pins, from)
 				}
